@@ -183,8 +183,8 @@ class Acc(object):
             t = ckey(f.p.key()) + ">=0"
             if t not in conds:
                 conds.append(t)
-                if idx_atoms & set(f.p.atoms()):
-                    rel.append(t)
+            if t not in rel and idx_atoms & set(f.p.atoms()):
+                rel.append(t)
         self._parts = (arr, acc, sorted(set(conds)), sorted(set(rel)))
         return self._parts
 
@@ -666,6 +666,12 @@ class BWalk(omp.Region):
                     for f in p1 + p2:
                         if f.req is None and a in f.p.atoms() and f.p.degree_in(a) == 1:
                             cands.append((f, a, shift))
+            # the sign of the merged value: both alternatives provably >= 0 (p = 0 on one path, p = n under n > 0 on the other)
+            try:
+                if self.prover.prove(v1, p1, 3) is not None and self.prover.prove(v2, p2, 3) is not None:
+                    out.append(Fact(u, "cond", "join of %s: both values >= 0" % n))
+            except Exception:
+                pass
             seen = set()
             for f, a, shift in cands:
                 # g(t) := f.p with a replaced by (t - shift)
@@ -1223,6 +1229,52 @@ def sample_violation(a, extent, prover, symbols, tries=((0,), (1,), (2,), (3,), 
     return None
 
 
+def end_violation(a, extent, prover):
+    """a.idx + a.length (one past the last cell touched) and the extent are polynomials in the function's arguments only, although
+    a.idx itself is data dependent: look for admissible argument values with end > extent.  Only the facts that are connected to the
+    atoms of (extent - end) through shared symbols are relevant; if one of those is data dependent nothing is decided (None)."""
+    if a.idx is None or a.length is None or a.ranges and any(r[1] is None for r in a.ranges):
+        return None
+    end = a.idx + a.length
+    gap = extent - end
+    if atoms_datadep_noiv(gap) or any(isinstance(x, tuple) for x in gap.atoms()):
+        return None
+    if not gap.atoms():
+        return None
+    rel = set(gap.atoms())
+    facts = list(a.facts)
+    picked = []
+    changed = True
+    while changed:
+        changed = False
+        for f in facts:
+            if f in picked:
+                continue
+            at = set(f.p.atoms())
+            if at & rel:
+                picked.append(f)
+                rel |= set(x for x in at if not isinstance(x, tuple))
+                changed = True
+    if any(atoms_datadep_noiv(f.p) or any(isinstance(x, tuple) for x in f.p.atoms()) for f in picked):
+        return None
+    syms = sorted(rel)
+    if len(syms) > 5:
+        return None
+    lbs = dict(prover.lower) if prover is not None else {}
+    import itertools as it
+    choices = [[lbs.get(sname, 0) + d for d in (0, 1, 2, 3)] for sname in syms]
+    for combo in it.product(*choices):
+        env = dict(zip(syms, combo))
+        try:
+            if any(evalp(f.p, env) < 0 for f in picked if f.req is None):
+                continue
+            if evalp(gap, env) < 0:
+                return dict(symbols=env, end=int(evalp(end, env)) if not atoms_datadep_noiv(end) else None, extent=int(evalp(extent, env)))
+        except KeyError:
+            continue
+    return None
+
+
 def atoms_datadep_noiv(p):
     return [x for x in p.atoms() if isinstance(x, tuple) and x[0] != "iv"]
 
@@ -1436,7 +1488,10 @@ class Ledger(object):
         self.trusted = trusted or {}         # (function, pointer parameter) -> reason: self-describing structure, not ledgered
         self.sites = sites                   # None: discovery mode (reason table decides); dict site tuple -> {"n": count, "why": reason}
         self.sites3 = set(k[:3] for k in sites) if sites is not None else set()
-        self.guarded3 = guarded or set()     # input-dependent accesses that a dominating condition bounded on the confirmed tree
+        # input-dependent accesses that a dominating condition bounded on the confirmed tree -> the conditions (canonical text) that
+        # mention the index there.  A regression is reported only when one of those conditions no longer dominates the access: when
+        # they are all still there and the proof fails, the analyser lost something else (a value fact) - undecided
+        self.guarded3 = guarded or {}
         self.site_use = collections.Counter()
         self.rows = []
         self.lower = []                      # internal functions: polynomials over scalar parameters that every call must keep >= 0
@@ -1577,13 +1632,24 @@ class Ledger(object):
         if hi_ok is None:
             side.append("index < extent (%s)" % (src if ext is None else "%s, %s" % (show_poly(ext), src)))
         dd = atoms_datadep_noiv(a.idx)
+        if dd and hi_ok is None and ext is not None and self.sites is not None:
+            # the upper end of a block (memset / memcpy region) can be free of run-time data although its start is not:
+            # &k[n] for (m - n) cells ends at m.  Then 'end <= extent' is a statement about the arguments alone
+            w = end_violation(a, ext, self.prover)
+            if w is not None:
+                row["cls"] = "VIOLATION"
+                row["why"] = ("the block ends at cell %s whatever the run-time data, and the array has %s cells (%s): out of bounds for admissible "
+                              "arguments %s" % (show_poly(a.idx + a.length), show_poly(ext), src, w))
+                row["witness"] = w
+                return row
         if dd:
             shown_dd = ", ".join(sorted(set(show_atom(x) for x in dd)))[:160]
             if self.sites is None:
                 # discovery mode (reference tree, no frozen ledger yet): everything unprovable is listed for reading
                 row["cls"] = "UNDECIDED" if a.plain_key() in self.table else "VIOLATION"
                 row["why"] = "the index depends on run-time data (%s): cannot show %s" % (shown_dd, " and ".join(side))
-            elif a.key() in self.guarded3:
+            elif a.key() in self.guarded3 and (not isinstance(self.guarded3, dict) or
+                                               any(c not in set(a.cond_texts()) for c in self.guarded3[a.key()]) or not self.guarded3[a.key()]):
                 # positive evidence: on the confirmed tree this very access (same array, same index polynomial) was bounded by a
                 # dominating condition; the conditions that dominate it now no longer imply the bound
                 guarded = sorted(set(f.text for f in facts if f.origin == "cond" and any(x in f.p.atoms() for x in dd)))[:3]
